@@ -68,18 +68,18 @@ theorem pdNodes_ex (d : Dir) (junk : FileInfo → Nat) : ∀ (dir : List Comp) (
   | dir, idx, .sec s :: t, hr => by
     simp only [exNodes] at hr
     simp [smNodes, pdNodes, stNodes, pdSection_ex d junk dir idx s hr.append_left,
-      pdNodes_ex d junk dir (idx + cntSection s) t hr.append_right]
+      pdNodes_ex d junk dir (idx + exCntSection s) t hr.append_right]
   | dir, idx, .fv v :: t, hr => by
     simp only [exNodes] at hr
     simp [smNodes, pdNodes, stNodes, pdFv_ex d junk dir idx v hr.append_left,
-      pdNodes_ex d junk dir (idx + cntFv v) t hr.append_right]
+      pdNodes_ex d junk dir (idx + exCntFv v) t hr.append_right]
 theorem pdSections_ex (d : Dir) (junk : FileInfo → Nat) : ∀ (dir : List Comp) (idx : Nat) (n : List Section),
     Readable d (exSections dir idx n) → pdSections d junk (smSections dir idx n) = .ok (stSections junk n)
   | _, _, [], _ => by simp [smSections, pdSections, stSections]
   | dir, idx, s :: t, hr => by
     simp only [exSections] at hr
     simp [smSections, pdSections, stSections, pdSection_ex d junk dir idx s hr.append_left,
-      pdSections_ex d junk dir (idx + cntSection s) t hr.append_right]
+      pdSections_ex d junk dir (idx + exCntSection s) t hr.append_right]
 theorem pdFile_ex (d : Dir) (junk : FileInfo → Nat) : ∀ (dir : List Comp) (idx : Nat) (f : File),
     Readable d (exFile dir idx f) → pdFile d junk (smFile dir idx f) = .ok (stFile junk f)
   | dir, idx, .mk i buf secs, hr => by
@@ -101,7 +101,7 @@ theorem pdFiles_ex (d : Dir) (junk : FileInfo → Nat) : ∀ (dir : List Comp) (
   | dir, idx, f :: t, hr => by
     simp only [exFiles] at hr
     simp [smFiles, pdFiles, stFiles, pdFile_ex d junk dir idx f hr.append_left,
-      pdFiles_ex d junk dir (idx + cntFile f) t hr.append_right]
+      pdFiles_ex d junk dir (idx + exCntFile f) t hr.append_right]
 theorem pdFv_ex (d : Dir) (junk : FileInfo → Nat) : ∀ (dir : List Comp) (idx : Nat) (v : Fv),
     Readable d (exFv dir idx v) → pdFv d junk (smFv dir idx v) = .ok (stFv junk v)
   | dir, idx, .mk i buf [], hr => by
@@ -126,7 +126,7 @@ theorem pdBiosElems_ex (d : Dir) (junk : FileInfo → Nat) : ∀ (dir : List Com
   | dir, idx, .fv v :: t, hr => by
     simp only [exBiosElems] at hr
     simp [smBiosElems, pdBiosElems, stBiosElems, pdFv_ex d junk dir idx v hr.append_left,
-      pdBiosElems_ex d junk dir (idx + cntFv v) t hr.append_right]
+      pdBiosElems_ex d junk dir (idx + exCntFv v) t hr.append_right]
 
 theorem pdBios_ex (d : Dir) (junk : FileInfo → Nat) (dir : List Comp) (idx : Nat) (b : BiosRegion)
     (hr : Readable d (exBios dir idx b)) : pdBios d junk (smBios dir idx b) = .ok (stBios junk b) := by
@@ -147,17 +147,17 @@ theorem pdRegions_ex (d : Dir) (junk : FileInfo → Nat) : ∀ (dir : List Comp)
   | dir, idx, .bios b :: t, hr => by
     simp only [exRegions, exRegion] at hr
     simp [smRegions, smRegion, pdRegions, stRegions, pdBios_ex d junk dir idx b hr.append_left,
-      pdRegions_ex d junk dir (idx + cntRegion (.bios b)) t hr.append_right]
+      pdRegions_ex d junk dir (idx + exCntRegion (.bios b)) t hr.append_right]
   | dir, idx, .me buf fr :: t, hr => by
     simp only [exRegions, exRegion] at hr
     have := readBuf_leaf d (meLeaf dir) buf (by simp [meLeaf]) hr.append_left.head
     simp [smRegions, smRegion, pdRegions, stRegions, this,
-      pdRegions_ex d junk dir (idx + cntRegion (.me buf fr)) t hr.append_right]
+      pdRegions_ex d junk dir (idx + exCntRegion (.me buf fr)) t hr.append_right]
   | dir, idx, .raw buf fr ty :: t, hr => by
     simp only [exRegions, exRegion] at hr
     have := readBuf_leaf d (rawLeaf dir fr ty) buf (by simp [rawLeaf]) hr.append_left.head
     simp [smRegions, smRegion, pdRegions, stRegions, this,
-      pdRegions_ex d junk dir (idx + cntRegion (.raw buf fr ty)) t hr.append_right]
+      pdRegions_ex d junk dir (idx + exCntRegion (.raw buf fr ty)) t hr.append_right]
 
 /-- loading what `extract` wrote: when every written file reads back, `ParseDir` builds `strip junk t` -/
 theorem parseDir_ex (d : Dir) (junk : FileInfo → Nat) (t : Tree) (hr : Readable d (extractEntries t)) :
